@@ -274,7 +274,10 @@ impl SwiftField for Field55ThirdReimbursementInstitution {
                 let field = Field55D::parse(value)?;
                 Ok(Field55ThirdReimbursementInstitution::D(field))
             }
-            _ => {
+            Some(other) => Err(ParseError::InvalidFormat {
+                message: format!("Option {} is not supported by this field", other),
+            }),
+            None => {
                 // No variant specified, fall back to default parse behavior
                 Self::parse(value)
             }
